@@ -209,7 +209,7 @@ func c11Facts() string {
 // request histories
 
 type c11Req struct {
-	text string                    // tokens for the line
+	text string                     // tokens for the line
 	call func(h *lcH) (error, bool) // runs the RPC method; bool = a 64-sample block must follow (raw block request)
 }
 
@@ -222,7 +222,7 @@ func c11Index(r *Rng, n int) int {
 	case c < 94:
 		return n + r.Intn(3)
 	default:
-		return r.Pick(99, 1 << 40, -(1 << 40))
+		return r.Pick(99, 1<<40, -(1 << 40))
 	}
 }
 
@@ -250,6 +250,9 @@ func c11GenReq(r *Rng, nchan, nsamp int, dir string) c11Req {
 			}
 			st.AutoTrigger = true
 			st.AutoDelay = time.Second
+			st.LevelTrigger = true // the fed blocks step from 0 to 5000: primary triggers on these channels
+			st.LevelRising = true
+			st.LevelLevel = 1000
 			return h.sc.ConfigureTriggers(st, &reply), false
 		}}
 	case c < 26: // ConfigurePulseLengths
@@ -320,6 +323,11 @@ func c11GenReq(r *Rng, nchan, nsamp int, dir string) c11Req {
 		var flat []int
 		for i := 0; i < np; i++ {
 			s, rx := c11Index(r, nchan), c11Index(r, nchan)
+			if r.Chance(35) { // boundary: the first out-of-range source with a valid receiver
+				s, rx = nchan, r.Intn(nchan)
+			} else if r.Chance(15) {
+				s, rx = r.Intn(nchan), nchan
+			}
 			conn[s] = append(conn[s], rx)
 			flat = append(flat, s, rx)
 		}
@@ -378,6 +386,9 @@ func (h *lcH) c11Feed(nchan, frame, dropped int) bool {
 	data := make([][]dastard.RawType, nchan)
 	for i := range data {
 		data[i] = make([]dastard.RawType, 64)
+		for j := 20; j < 64; j++ {
+			data[i][j] = 5000 // a step in every block: level triggers fire when enabled
+		}
 	}
 	if !h.loop.VerifFeed(int64(frame), data, dropped, nil, 0, 3*time.Second) {
 		return false
@@ -406,6 +417,20 @@ func c11GenOps(seed uint64, nchan int, dir string) []c11Op {
 	r := NewRng(seed)
 	m := r.Range(1, 8)
 	var ops []c11Op
+	{ // every history begins by enabling a level trigger on all channels, so that later blocks carry primary triggers
+		all := make([]int, nchan)
+		for i := range all {
+			all[i] = i
+		}
+		var reply bool
+		ops = append(ops, c11Op{"req", fmt.Sprintf("T %s", ints(all)), c11Req{"", func(h *lcH) (error, bool) {
+			st := &dastard.FullTriggerState{ChannelIndices: all}
+			st.LevelTrigger = true
+			st.LevelRising = true
+			st.LevelLevel = 1000
+			return h.sc.ConfigureTriggers(st, &reply), false
+		}}})
+	}
 	for i := 0; i < m; i++ {
 		switch c := r.Intn(100); {
 		case c < 80:
@@ -421,6 +446,7 @@ func c11GenOps(seed uint64, nchan int, dir string) []c11Op {
 			ops = append(ops, c11Op{kind: "refresh", text: "F"})
 		}
 	}
+	ops = append(ops, c11Op{kind: "blk", text: "B"}, c11Op{kind: "blk", text: "B"})
 	return ops
 }
 
@@ -486,7 +512,6 @@ func c11Hist(idx int, r *Rng) (string, func() string) {
 		return fmt.Sprintf("RET %s PROBE %d %s", ints(rets), probe, h.finish(true))
 	}
 }
-
 
 // ------------------------------------------------------------------------------------------------
 // gated schedules: when do requests arrive?
